@@ -46,6 +46,10 @@ def cases(rng, tier):
     # many functions: a resource reached only through a helper with a large handle must still be visible to its stage
     for nh in ((70, 300) if tier != "thorough" else (70, 130, 300, 600)):
         out.append({"wgsl": W.many_functions_program(nh).render(), "family": "many_functions", "opts": {}, "tags": []})
+    # deep call chains: a resource touched only at the bottom is used by the stage at the top, at any depth (and by no other:
+    # a writable storage buffer must not become visible to the vertex stage)
+    for d, form in ((66, "let"), (70, "cond"), (130, "let"), (40, "stmt")) + (((260, "let"), (33, "fwd")) if tier == "thorough" else ()):
+        out.append({"wgsl": W.deep_chain_program(d, form).render(), "family": "deep_chain", "opts": {}, "tags": []})
     return out
 
 
